@@ -1242,10 +1242,20 @@ pub fn run(ctx: &mut Ctx, p: Prop) -> &'static str {
             (c, style)
         };
         // correspondence only: the case holds a number outside the properties' quantifiers
-        let silent = shaped.map_or(false, |s| !s.oracle) || (k < n_corpus && !case_numbers_ordinary(&c));
+        let mut silent = shaped.map_or(false, |s| !s.oracle) || (k < n_corpus && !case_numbers_ordinary(&c));
         let style = if style == LenStyle::Metric && shaped.map_or(false, |s| !s.metric_ok) { LenStyle::Generic } else { style };
-        if c.edge_oriented {
-            c.reverse = false; // the application never runs an edge-oriented search in reverse
+        if c.edge_oriented && c.reverse {
+            // the application never runs an edge-oriented search in reverse, and the wrapper is wrong there
+            // (Lean C01.edge_oriented_reverse_counterexample): outside the properties' quantifiers.  One such case
+            // in three is kept for the correspondence alone (oracles silent) so that the reverse arms of
+            // `run_edge_oriented` stay tied to the model; the others run forward.
+            let mut r2 = Rng::for_case(ctx.seed, 9300 + tag(p), idx as u64);
+            if k >= n_corpus && r2.chance(1, 3) {
+                silent = true;
+                ctx.count("edge_oriented_reverse_correspondence_only");
+            } else {
+                c.reverse = false;
+            }
         }
         // the configurations the generator makes that the application must refuse: an unknown weight
         // name without ignore_unknown_weights, and weights that sum to zero
